@@ -447,6 +447,101 @@ def kal_rules(ctx):
                % (r2.key()[:200] if isinstance(r2, NC) else r2, 'lower' if lower else 'upper'))
 
 
+# ------------------------------------------------------------------- TOL-GATE
+def _lead_const(e, fold):
+    """largest numeric constant that bounds the expression from its leading factors:
+    `1e-8`, `1e-8 * s.max()`, `EPS * n` -> the constant part; None when there is none"""
+    try:
+        v = fold(e)
+        if isinstance(v, (int, float)) and not isinstance(v, bool):
+            return abs(float(v))
+    except (ValueError, TypeError):
+        pass
+    if isinstance(e, ast.BinOp) and isinstance(e.op, ast.Mult):
+        a, b = _lead_const(e.left, fold), _lead_const(e.right, fold)
+        if a is not None and b is not None:
+            return a * b
+        return a if a is not None else b
+    return None
+
+
+def tol_gate(ctx, modules=('kalman',)):
+    """The correction and the discretisation are exact formulas.  A branch that replaces part of
+    them by a cheaper expression when computed values are *close* to something (np.allclose,
+    np.isclose, |.| < eps) returns an approximation for every input just inside the tolerance
+    - unless the tolerance is at rounding level.  Tolerances of 1e-12 and above (relative, or
+    absolute times a scale taken from the data) are reported; smaller ones pass; a tolerance
+    that cannot be read ends the analysis (round-10 seed C07: `L = diag(sqrt(diag(S)))` when S is
+    diagonal within 1e-8 of its largest entry)."""
+    ctx.rule('TOL-GATE', 'no branch of the Kalman routines is decided by a tolerance comparison of '
+             'computed values with a tolerance above rounding level')
+    n = 0
+    for f in ctx.repo.all_functions():
+        if f.module.name.split('.')[-1] not in modules:
+            continue
+        n += 1
+        loc = f.local_names()
+        res = lambda e: f.module.resolve(e, loc) if isinstance(e, (ast.Name, ast.Attribute)) \
+            else None
+        fold = lambda e: ctx.repo.fold(e, f.module, f.cls)
+        for node in ast.walk(f.node):
+            if not isinstance(node, (ast.If, ast.IfExp, ast.While)):
+                continue
+            if isinstance(node, ast.If) and node.body and isinstance(node.body[0], ast.Raise) \
+                    and not node.orelse:
+                continue                     # argument validation
+            for c in ast.walk(node.test):
+                tol = what = None
+                if isinstance(c, ast.Call) and res(c.func) in ('numpy.allclose', 'numpy.isclose',
+                                                               'math.isclose'):
+                    rt, at_ = 1e-5 if res(c.func) != 'math.isclose' else 1e-9, \
+                        1e-8 if res(c.func) != 'math.isclose' else 0.0
+                    args = list(c.args[2:])
+                    kws = {kw.arg: kw.value for kw in c.keywords}
+                    r_e = kws.get('rtol', kws.get('rel_tol', args[0] if args else None))
+                    a_e = kws.get('atol', kws.get('abs_tol', args[1] if len(args) > 1 else None))
+                    vals = []
+                    for dflt, e_ in ((rt, r_e), (at_, a_e)):
+                        if e_ is None:
+                            vals.append(dflt)
+                        else:
+                            v_ = _lead_const(e_, fold)
+                            ctx.need(v_ is not None, '%s: tolerance `%s` not read'
+                                     % (f.qualname, norm_text(e_)[:40]))
+                            vals.append(v_)
+                    tol, what = max(vals), norm_text(c)[:70]
+                elif isinstance(c, ast.Compare) and len(c.ops) == 1 and \
+                        isinstance(c.ops[0], (ast.Lt, ast.LtE)) and \
+                        any(isinstance(x, ast.Call) and norm_text(x.func) in (
+                            'abs', 'np.abs', 'np.absolute', 'np.fabs', 'np.linalg.norm', 'np.max',
+                            'np.amax') for x in ast.walk(c.left)):
+                    v_ = _lead_const(c.comparators[0], fold)
+                    if v_ is None or v_ == 0:
+                        continue
+                    tol, what = v_, norm_text(c)[:70]
+                if tol is None:
+                    continue
+                ctx.ob('TOL-GATE', tol < 1e-12, None, '%s: `%s` is at rounding level' % (
+                    f.qualname, what), f=f, node=node, key='tol-%s-%s' % (f.qualname, what[:30]),
+                    why='%s takes a different computation when `%s` (tolerance %.1e, above '
+                        'rounding level): for inputs just inside the tolerance the result is an '
+                        'approximation of the exact formula, not the formula' % (
+                            f.qualname, what, tol))
+    ctx.ob('TOL-GATE', True, None, '%d functions of the Kalman module scanned' % n, key='summary')
+    if not ctx.cache.get('tol-gate-fixture'):
+        ctx.cache['tol-gate-fixture'] = True
+        e = ast.parse('1e-8 * s.max()', mode='eval').body
+
+        def _nofold(x):
+            if isinstance(x, ast.Constant):
+                return x.value
+            raise ValueError
+        if _lead_const(e, _nofold) != 1e-8:
+            raise AnalysisError('TOL-GATE fixture not recognised')
+        ctx.ob('TOL-GATE', True, None, 'positive fixture: the constant part of `1e-8 * s.max()` '
+               'is read', key='fixture')
+
+
 # ------------------------------------------------------------------- Van Loan
 def _vl_exact_shortcut(f, st, F, Q, dt, res):
     """A conditional early return of compute_process_matrices that is exact by the semigroup law:
